@@ -34,7 +34,8 @@ RULE = ("seeded class-based zoo over 34 classes (7 core labelled-matrix base cla
         "moved to other places of the frame, every subset of the optional label / group columns switched off on both sides; "
         "hyperparameter dictionaries with containers nested two and three levels deep (copy cases); genetic maps without spline / "
         "default spline / spline of every supported kind (linear, slinear, nearest, nearest-up, zero, previous, next, quadratic, "
-        "cubic) and fill value (extrapolate or a number), built by the constructor options or by build_spline(); group paths None / "
+        "cubic) and fill value (extrapolate or a number), built by the constructor options or by build_spline(), or taken over "
+        "from another map by interp_gmap(); group paths None / "
         "nested / trailing slash / non-ASCII / with spaces; file given as str / Path / open h5py.File; write histories of "
         "2-4 objects on one location (richer->poorer, poorer->richer, same, cross-class); multi-step sessions through one "
         "caller-owned open h5py.File (2-3 groups written, read back - some twice -, overwritten, read again; handle checked "
@@ -381,12 +382,34 @@ def build_gmap(g, cls_name, richness, lcls):
         obj = cls(chrs, pos, gen, **kw)
     if how == "build_spline()":
         obj.build_spline(kind=kind, fill_value=fill)
+    foreign = False
+    if obj.spline is not None and g.random() < 0.25:
+        # a map whose interpolators do NOT derive from its own marker arrays: the product of interp_gmap(), which keeps the
+        # spline of the map it was interpolated from
+        try:
+            qc, qp = [], []
+            for u in numpy.unique(chrs):
+                pu = numpy.sort(pos[chrs == u])
+                lo, hi = int(pu.min()), int(pu.max())
+                qq = numpy.unique(g.integers(lo - (3 if isinstance(obj.spline_fill_value, str) else 0), hi + 1, int(g.integers(2, 6))))
+                qc += [int(u)] * len(qq); qp += qq.tolist()
+            qc, qp = numpy.array(qc, dtype="int64"), numpy.array(qp, dtype="int64")
+            new = obj.interp_gmap(qc, qp, qp + 1) if cls_name == "ExtendedGeneticMap" else obj.interp_gmap(qc, qp)
+            if new.spline is not None and bool(numpy.all(numpy.isfinite(new.vrnt_genpos))):
+                obj, foreign = new, True
+                auto_group = bool(obj.is_grouped())
+                kw.pop("vrnt_name", None)
+        except Exception:
+            pass
     has = obj.spline is not None
     sk = obj.spline_kind if has else None
     scls = "no spline" if not has else ("default linear spline" if (sk == "linear" and isinstance(obj.spline_fill_value, str))
                                         else "spline of non-default kind or fill value")
-    meta = dict(lcls=lcls if ("vrnt_name" in kw) else "labels absent", gcls="grouped" if auto_group else "ungrouped",
-                dcls="spline built" if has else "no spline", pcls=scls, trivial=False, auto_group=auto_group, auto_spline=has)
+    if foreign:
+        scls = "spline taken over from another map (interp_gmap)"
+    meta = dict(lcls=lcls if (getattr(obj, "vrnt_name", None) is not None) else "labels absent", gcls="grouped" if auto_group else "ungrouped",
+                dcls="spline built" if has else "no spline", pcls=scls, trivial=False, auto_group=auto_group, auto_spline=has,
+                foreign_spline=foreign)
     return Spec(obj, cls_name, meta)
 
 
@@ -747,6 +770,8 @@ def table_options(g, spec):
             wk.update(vrnt_stop_col=nm("stop"), vrnt_name_col=nm("name"), vrnt_fncode_col=nm("fncode"))
         rk = dict(wk, auto_group=meta["auto_group"], auto_build_spline=meta["auto_spline"], spline_kind=o.spline_kind,
                   spline_fill_value=o.spline_fill_value)
+        if meta.get("foreign_spline"):      # interpolators that are not a function of the table: handed to the reader
+            rk.update(spline=o.spline, auto_build_spline=False)
         if kind == "ExtendedGeneticMap":
             rk["vrnt_name_col"] = wk["vrnt_name_col"] if o.vrnt_name is not None else None
             rk["vrnt_fncode_col"] = wk["vrnt_fncode_col"] if o.vrnt_fncode is not None else None
